@@ -307,8 +307,49 @@ func (tp *ethTxPool) Update(height int64, txs []types.Tx) {
 	}
 	tp.refreshBroadcastList(txsMap)
 	tp.refreshAdminOP(txsMap)
+	tp.removeCommitted(txs)
 
 	return
+}
+
+// A transaction that a committed block contained is done, whether it was applied or judged
+// invalid: it leaves the queues and the lookup cache. Without this an included-but-invalid
+// transaction (it does not advance its sender's nonce) stayed pending and was offered for
+// inclusion again in every following block.
+func (tp *ethTxPool) removeCommitted(txs []types.Tx) {
+	for _, raw := range txs {
+		if types.IsAdminOP(raw) {
+			continue
+		}
+		tx := &etypes.Transaction{}
+		if err := rlp.DecodeBytes(raw, tx); err != nil {
+			continue
+		}
+		hash := tx.Hash()
+		if _, ok := tp.all[hash]; !ok {
+			continue
+		}
+		delete(tp.all, hash)
+		from, err := etypes.Sender(tp.app.Signer, tx)
+		if err != nil {
+			continue
+		}
+		for _, queues := range []map[common.Address]*txSortedMap{tp.pending, tp.waiting} {
+			q := queues[from]
+			if q == nil {
+				continue
+			}
+			if cur := q.Get(tx.Nonce()); cur != nil && cur.Hash() == hash {
+				q.Remove(tx.Nonce())
+				if q.Len() == 0 {
+					delete(queues, from)
+				}
+			}
+		}
+		if tp.waiting[from] == nil {
+			delete(tp.waitingBeats, from)
+		}
+	}
 }
 
 // update pool txs after evm state updated
